@@ -113,7 +113,7 @@ def native_search():
         out = []
         for _ in range(2):
             try:
-                out.append(await asyncio.wait_for(t.read(), 0.5))
+                out.append(await asyncio.wait_for(t.read(), 10))
             except TransportError as e:
                 out.append(f"transport-error:{type(e).__name__}")
             except asyncio.TimeoutError:
@@ -146,7 +146,7 @@ def native_search():
         got = []
         for i in range(k):
             try:
-                got.append(await asyncio.wait_for(t.read(), 0.5))
+                got.append(await asyncio.wait_for(t.read(), 10))
             except TransportError as e:
                 got.append(f"transport-error:{type(e).__name__}")
             except asyncio.TimeoutError:
@@ -192,7 +192,7 @@ def native_search():
         await asyncio.sleep(0.01)
         feed.put_nowait(("msg", Msg("in/p/1/2/1/0/0", b"20.5;C")))
         try:
-            got = await asyncio.wait_for(rd, 1)
+            got = await asyncio.wait_for(rd, 10)
         except BaseException as e:  # noqa: BLE001
             return f"a read that was waiting when a message arrived: {type(e).__name__}"
         if got != "1;2;1;0;0;20.5;C":
@@ -201,12 +201,12 @@ def native_search():
         await asyncio.sleep(0.01)
         feed.put_nowait(("err", MqttError("Disconnected during message iteration")))
         try:
-            got = await asyncio.wait_for(rd, 1)
+            got = await asyncio.wait_for(rd, 10)
             out = f"returned {got!r}"
         except TransportError:
             out = None
         except asyncio.TimeoutError:
-            out = "is still blocked 1 s after the broker error (the transport went deaf silently)"
+            out = "is still blocked 10 s after the broker error (the transport went deaf silently)"
         except BaseException as e:  # noqa: BLE001
             out = f"raised {type(e).__name__}"
         try:
